@@ -584,8 +584,10 @@ Section RT.
   Inductive rep_value : field_ty -> pval -> Prop :=
   | RV_scalar k v : rep_scalar k v -> rep_value (FScalar k) v
   | RV_enum r pre opts n name :
+      (* n is a declared number of the enum; that its option name reads back as n is DERIVED
+         (option_by_name_inverse) from the schema condition "option names are distinct" *)
       lookup env r = Some (SEnum pre opts) -> option_by_number opts n = Some name ->
-      option_by_name pre opts name = Some n -> valid_utf8 name = true -> rep_value (FEnum r) (VEnum n)
+      NoDup (map fst opts) -> valid_utf8 name = true -> rep_value (FEnum r) (VEnum n)
   | RV_object r ps m :
       lookup env r = Some (SObject ps) -> rep_props ps m -> rep_value (FObject r) (VMsg m)
   | RV_oneof r ps m :
@@ -1215,6 +1217,35 @@ Section RT.
   Lemma bytes_eqb_neq a b : a <> b -> bytes_eqb a b = false.
   Proof. intros H. destruct (bytes_eqb a b) eqn:E; [|reflexivity]. exfalso. apply H, bytes_eqb_eq, E. Qed.
 
+  (* EnumSchema.OptionByName inverts OptionByNumber on every enum whose option names are distinct
+     (numbers may repeat: aliases read back as the first name, whose number is the same) *)
+  Lemma option_by_number_in opts : forall n name, option_by_number opts n = Some name -> In (name, n) opts.
+  Proof.
+    induction opts as [|[k z] r IH]; intros n name H; cbn [option_by_number] in H; [discriminate|].
+    destruct (Z.eqb z n) eqn:E.
+    - injection H as <-. apply Z.eqb_eq in E. subst. left. reflexivity.
+    - right. apply IH. exact H.
+  Qed.
+
+  Lemma option_by_short_nodup opts : forall name n, NoDup (map fst opts) -> In (name, n) opts ->
+    option_by_short opts name = Some n.
+  Proof.
+    induction opts as [|[k z] r IH]; intros name n Hnd Hin; [destruct Hin|].
+    cbn [map fst] in Hnd. inversion Hnd as [|? ? Hnotin Hnd']; subst. cbn [option_by_short].
+    destruct Hin as [E|Hin].
+    - injection E as -> ->. rewrite bytes_eqb_refl. reflexivity.
+    - destruct (bytes_eqb k name) eqn:E.
+      + apply bytes_eqb_eq in E. subst k. exfalso. apply Hnotin. apply (in_map fst) in Hin. exact Hin.
+      + apply IH; assumption.
+  Qed.
+
+  Lemma option_by_name_inverse pre opts n name : NoDup (map fst opts) ->
+    option_by_number opts n = Some name -> option_by_name pre opts name = Some n.
+  Proof.
+    intros Hnd H. unfold option_by_name.
+    rewrite (option_by_short_nodup opts name n Hnd (option_by_number_in _ _ _ H)). reflexivity.
+  Qed.
+
   (* ---------------------------------------------------------------- oneofs *)
   (* {} : nothing is set *)
   Lemma oneof_dec_empty r ps m : lookup env r = Some (SOneof ps) ->
@@ -1717,7 +1748,8 @@ Section RT.
       cbn [dec_ok_value]. split; [exact Hnc|]. exists v'. split; [exact Hds|]. split; [exact Heq|].
       intros e. apply (kept_scalar_equiv k v v' e Heq).
     - (* enum *)
-      inversion Hrv as [|? ? ? ? ? Hlk Hbn Hbnm Hvn| | | | | |]; subst. rewrite Hlk, Hbn in H.
+      inversion Hrv as [|? ? ? ? ? Hlk Hbn Hnd Hvn| | | | | |]; subst.
+      pose proof (option_by_name_inverse pre _ _ _ Hnd Hbn) as Hbnm. rewrite Hlk, Hbn in H.
       apply escape_ok in H as [Hv ->]. exists (JStr name). split; [reflexivity|]. split; [exact Hv|]. split; [discriminate|].
       cbn [dec_ok_value]. exists pre, opts, name, n. repeat split; assumption.
     - (* object *)
@@ -1790,7 +1822,7 @@ Section RT.
         { unfold any_text. rewrite Hs1.
           destruct (msg_get 3 m) as [v3|] eqn:E3.
           - destruct (Hshape 3 v3 E3) as [(Hn & _)|[(Hn & _)|(_ & s & ->)]]; try discriminate.
-            injection Hdata as <-. split; [|reflexivity]. apply Hraw. reflexivity.
+            apply stored_json_ok in Hdata as [-> _]. split; [|reflexivity]. apply Hraw. reflexivity.
           - apply obind_ok in Hdata as (pbytes & Hpb & Hd). rewrite (field_bytes_s _ _ _ Hpb).
             split; [eapply Hinner; exact Hd|exact Hd]. }
         destruct Hc as [(Jd & Hwd & ->) Htxt].
